@@ -2369,3 +2369,5 @@ def gen_split_m8(quick, thorough):
 
 PROPS["C13"]["gen"] = gen_union(PROPS["C13"]["gen"], gen_split_m8(300, 3000))
 
+
+PROPS["C16"]["gen"] = gen_union(PROPS["C16"]["gen"], gen_shape_extreme(200, 2000))
